@@ -16,7 +16,7 @@ LEVEL_TEXT = ("Real runs over all adapter kinds (regular, anchored, non-internal
               "adapters, matches on the reverse complement - must equal the JSON report, and 'error_lengths' read as 'allowed errors for match "
               "length L' must equal int(L x rate) for every L up to the number of non-N adapter bases.")
 LEVEL_NOTE = ("Trusted base: the hooked match list (what was applied), the tally rules written from the guide/reference (removed length = rstop "
-              "for 5' matches, len - rstart for 3' matches; adjacent base A/C/G/T else ''); null in the JSON read as 0.")
+              "for 5' matches, len - rstart for 3' matches; adjacent base A/C/G/T else ''); on_reverse_complement must be the tally whenever --revcomp is on, null otherwise.")
 VARIANTS = {"quick": ["plain"], "thorough": ["plain"]}
 BUDGET_S = {"quick": 150, "thorough": 3000}
 FLOORS = {"quick": 1500, "thorough": 50000}
